@@ -107,6 +107,17 @@ func genMClient(r *hx.Rand, idx int) mcMember {
 		}
 		m.Clients = append(m.Clients, b)
 	}
+	// at least one plugin rule is requested: with NO rule in `use` at all (every client "n" and no
+	// builtin client) the check config falls back to the DEFAULT rules, which include the rules of
+	// every plugin, so each handler rightly runs once — a different configuration from the one this
+	// family means by "n" (false alarm of the first version: seed 4, member 384)
+	allN := true
+	for _, b := range m.Clients {
+		allN = allN && b.Outcome == "n"
+	}
+	if allN {
+		m.Clients[0].Outcome = "s"
+	}
 	return m
 }
 
